@@ -38,7 +38,11 @@ RULE_ADDED = (
               'ding). '
               ' '
               'Round 14: quiet periods (121 s .. a day on the clock the middleware reads) betwe'
-              'en the bring-up and the link failure; header-cut-short shapes. ')
+              'en the bring-up and the link failure; header-cut-short shapes. '
+              ' '
+              'Round 15: the commands TCPSigner / SGX have also over those transports; the faul'
+              'ted request right after one the device refused; faults in the bootloader part of'
+              ' a repair (mode .. unlock) - a stop at the retries query is a known finding. ')
 RULE = RULE + " " + RULE_ADDED.strip()
 ASSUMPTIONS = [
     "fault kinds are those of the HID transport (write() < 0, read error, time-out) as the "
